@@ -51,6 +51,53 @@ Qed.
 Definition st_of (t : tracer) (x : N) := tget (t_threads t) x.
 Definition allstopped (t : tracer) : Prop := forall x, st_of t x <> Some TRunning.
 
+(* ---- the thread table never holds a thread id twice ---------------------------------- *)
+Definition keys_ok (t : tracer) : Prop := NoDup (map fst (t_threads t)).
+
+Lemma tset_keys : forall l x v, map fst (tset l x v) = map fst l.
+Proof.
+  induction l as [|[z s] l IH]; intros x v; cbn [tset map fst]; [reflexivity|].
+  destruct (x =? z); cbn [map fst]; [reflexivity | rewrite IH; reflexivity].
+Qed.
+Lemma tget_none_notin : forall l x, tget l x = None -> ~ In x (map fst l).
+Proof.
+  induction l as [|[z s] l IH]; intros x H; cbn [tget alist_get map fst In] in *; [tauto|].
+  destruct (x =? z) eqn:E; [discriminate|]. apply N.eqb_neq in E. intros [H1|H1]; [congruence | eapply IH; eauto].
+Qed.
+Lemma nodup_snoc : forall (l : list N) x, NoDup l -> ~ In x l -> NoDup (l ++ [x]).
+Proof.
+  induction l as [|a l IH]; intros x H Hn; cbn [app].
+  - constructor; [intros []|constructor].
+  - inv H. constructor.
+    + rewrite in_app_iff. intros [Hi|[Hi|[]]]; [contradiction|]. apply Hn. left. auto.
+    + apply IH; auto. intros Hin. apply Hn. right. exact Hin.
+Qed.
+Lemma nodup_filter_keys : forall (g : N * tstatus -> bool) l, NoDup (map fst l) -> NoDup (map fst (filter g l)).
+Proof.
+  induction l as [|a l IH]; intros H; cbn [filter map]; [constructor|].
+  cbn [map] in H. inv H. destruct (g a); cbn [map]; auto. constructor; auto.
+  intros Hin. apply H2. apply in_map_iff in Hin. destruct Hin as [b [Hb1 Hb2]].
+  apply filter_In in Hb2. apply in_map_iff. exists b. tauto.
+Qed.
+Lemma keys_set : forall t x v, keys_ok t -> keys_ok (t_set t x v).
+Proof. intros t x v H. unfold keys_ok, t_set; cbn [t_threads with_threads]. rewrite tset_keys. exact H. Qed.
+Lemma keys_add : forall t x, keys_ok t -> keys_ok (t_add t x).
+Proof.
+  intros t x H. unfold keys_ok, t_add, tadd; cbn [t_threads with_threads].
+  destruct (tget (t_threads t) x) eqn:E.
+  - rewrite tset_keys. exact H.
+  - rewrite map_app. cbn [map fst]. apply nodup_snoc; auto. apply tget_none_notin; exact E.
+Qed.
+Lemma keys_remove : forall t x, keys_ok t -> keys_ok (t_remove t x).
+Proof. intros t x H. unfold keys_ok, t_remove, tremove; cbn [t_threads with_threads]. apply nodup_filter_keys. exact H. Qed.
+Lemma keys_ensure : forall t x st t', ensure_stop t x st = Ok t' -> keys_ok t -> keys_ok t'.
+Proof. intros t x st t' H K. unfold ensure_stop in H. destruct (tget (t_threads t) x); inv H. apply keys_set; exact K. Qed.
+Lemma keys_queue : forall t q, keys_ok t -> keys_ok (with_queue t q).
+Proof. intros t q H. exact H. Qed.
+Lemma keys_guard : forall t g, keys_ok t -> keys_ok (with_guard t g).
+Proof. intros t g H. exact H. Qed.
+
+
 (* ===================================================================================== *)
 (* B. All-stop, for ANY world obeying two laws                                             *)
 (* ===================================================================================== *)
@@ -93,14 +140,15 @@ Definition Inv (t : tracer) (w : W) : Prop := forall x, running w x -> st_of t x
 Record good (t : tracer) (w : W) (t' : tracer) (w' : W) : Prop := mk_good {
   g_mono : forall x, running w' x -> running w x;
   g_chg : forall x, st_of t x = Some TRunning -> st_of t' x <> Some TRunning -> ~ running w' x;
-  g_nr : forall x, st_of t x <> Some TRunning -> st_of t' x <> Some TRunning }.
+  g_nr : forall x, st_of t x <> Some TRunning -> st_of t' x <> Some TRunning;
+  g_keys : keys_ok t -> keys_ok t' }.
 
 Lemma good_refl : forall t w, good t w t w.
 Proof. intros; constructor; auto; intros x H H'; contradiction. Qed.
 
 Lemma good_trans : forall t w t1 w1 t2 w2, good t w t1 w1 -> good t1 w1 t2 w2 -> good t w t2 w2.
 Proof.
-  intros t w t1 w1 t2 w2 [m1 c1 n1] [m2 c2 n2]. constructor.
+  intros t w t1 w1 t2 w2 [m1 c1 n1 k1] [m2 c2 n2 k2]. constructor; [| | |auto].
   - auto.
   - intros x Hr Hn Hrun.
     destruct (st_of t1 x) as [[|]|] eqn:E.
@@ -112,34 +160,34 @@ Qed.
 
 Lemma good_inv : forall t w t' w', good t w t' w' -> Inv t w -> Inv t' w'.
 Proof.
-  intros t w t' w' [m c n] I x Hr.
+  intros t w t' w' [m c n k] I x Hr.
   destruct (st_of t' x) as [[|]|] eqn:E; auto; exfalso;
   apply (c x (I x (m x Hr))); try (rewrite E; discriminate); auto.
 Qed.
 
 Lemma good_allstopped : forall t w t' w', good t w t' w' -> allstopped t -> allstopped t'.
-Proof. intros t w t' w' [m c n] A x. apply n, A. Qed.
+Proof. intros t w t' w' [m c n k] A x. apply n, A. Qed.
 
 (* tracer-only updates of one entry *)
 Lemma good_upd : forall t w t' x,
   (forall y, y <> x -> st_of t' y = st_of t y) -> st_of t' x <> Some TRunning ->
-  (st_of t x = Some TRunning -> ~ running w x) -> good t w t' w.
+  (st_of t x = Some TRunning -> ~ running w x) -> (keys_ok t -> keys_ok t') -> good t w t' w.
 Proof.
-  intros t w t' x Hy Hx Hr. constructor; auto.
+  intros t w t' x Hy Hx Hr Hk. constructor; auto.
   - intros y Hy1 Hy2. destruct (N.eq_dec y x) as [->|Ne]; auto. rewrite (Hy y Ne) in Hy2. contradiction.
   - intros y Hy1. destruct (N.eq_dec y x) as [->|Ne]; auto. rewrite (Hy y Ne). auto.
 Qed.
 
-Lemma good_same : forall t w t', (forall y, st_of t' y = st_of t y) -> good t w t' w.
+Lemma good_same : forall t w t', (forall y, st_of t' y = st_of t y) -> (keys_ok t -> keys_ok t') -> good t w t' w.
 Proof.
-  intros t w t' H. constructor; auto.
+  intros t w t' H Hk. constructor; auto.
   - intros x H1 H2. rewrite H in H2. contradiction.
   - intros x H1. rewrite H. auto.
 Qed.
 
 Lemma good_set : forall t w x st, ~ running w x -> good t w (t_set t x (TStopped st)) w.
 Proof.
-  intros t w x st Hr. apply good_upd with (x := x); auto.
+  intros t w x st Hr. apply good_upd with (x := x); auto; [| |apply keys_set].
   - intros y Ne. unfold st_of, t_set; cbn [t_threads with_threads]. rewrite tget_tset.
     destruct (x =? y) eqn:E; auto. apply N.eqb_eq in E; subst; contradiction.
   - unfold st_of, t_set; cbn [t_threads with_threads]. rewrite tget_tset, N.eqb_refl.
@@ -148,7 +196,7 @@ Qed.
 
 Lemma good_add : forall t w x, (st_of t x = Some TRunning -> ~ running w x) -> good t w (t_add t x) w.
 Proof.
-  intros t w x Hr. apply good_upd with (x := x); auto.
+  intros t w x Hr. apply good_upd with (x := x); auto; [| |apply keys_add].
   - intros y Ne. unfold st_of, t_add; cbn [t_threads with_threads]. rewrite tget_tadd.
     destruct (x =? y) eqn:E; auto. apply N.eqb_eq in E; subst; contradiction.
   - unfold st_of, t_add; cbn [t_threads with_threads]. rewrite tget_tadd, N.eqb_refl. discriminate.
@@ -156,7 +204,7 @@ Qed.
 
 Lemma good_remove : forall t w x, (st_of t x = Some TRunning -> ~ running w x) -> good t w (t_remove t x) w.
 Proof.
-  intros t w x Hr. apply good_upd with (x := x); auto.
+  intros t w x Hr. apply good_upd with (x := x); auto; [| |apply keys_remove].
   - intros y Ne. unfold st_of, t_remove; cbn [t_threads with_threads]. rewrite tget_tremove.
     destruct (x =? y) eqn:E; auto. apply N.eqb_eq in E; subst; contradiction.
   - unfold st_of, t_remove; cbn [t_threads with_threads]. rewrite tget_tremove, N.eqb_refl. discriminate.
@@ -190,7 +238,7 @@ Qed.
 Lemma step_then : forall t w w1 t' w' pid,
   (forall x, running w1 x -> running w x \/ x = pid) -> good t w1 t' w' -> ~ running w' pid -> good t w t' w'.
 Proof.
-  intros t w w1 t' w' pid Hs [m c n] Hp. constructor; auto.
+  intros t w w1 t' w' pid Hs [m c n k] Hp. constructor; auto.
   intros x Hr. destruct (Hs x (m x Hr)) as [ H0 | H0 ]; auto. subst x. contradiction.
 Qed.
 
@@ -208,7 +256,7 @@ Definition real_stop (r : option stop_reason) : bool :=
   | _ => false end.
 
 Lemma good_nr : forall t w t' w' x, good t w t' w' -> ~ running w x -> ~ running w' x.
-Proof. intros t w t' w' x [m _ _] H Hr. apply H, m, Hr. Qed.
+Proof. intros t w t' w' x [m _ _ _] H Hr. apply H, m, Hr. Qed.
 
 Definition P_ans f := forall bps t w s t' w' r,
   ~ running w (ws_tid s) -> (forall p, s = WEvent p EvExit -> exitstop w p) ->
@@ -328,7 +376,7 @@ Proof.
         -- inv H. split; [apply good_refl|]. split; [reflexivity | intros _ Hu; discriminate].
     + set (t1 := if transparent sg then t else with_queue t (t_queue t ++ [(p, sg)])) in H.
       assert (G0 : good t w t1 w /\ t_guard t1 = t_guard t).
-      { unfold t1. destruct (transparent sg); split; try reflexivity; try apply good_refl. apply good_same. reflexivity. }
+      { unfold t1. destruct (transparent sg); split; try reflexivity; try apply good_refl. apply good_same; [reflexivity | exact (fun K => K)]. }
       destruct G0 as [G0 Gd0].
       bindH H. destruct (good_ensure _ w _ _ _ E Hnr) as [G1 Gd1].
       bindH H. destruct a0 as [t3 w3]. inv H.
@@ -372,7 +420,7 @@ Proof.
   destruct (t_guard t) eqn:Eg.
   - inv H. split; [apply good_refl|]. split; [congruence | intros Hf; congruence].
   - match type of H with (if ?c then _ else _) = _ => destruct c eqn:Ex end.
-    + inv H. split; [apply good_same; reflexivity|]. split; [cbn; congruence|].
+    + inv H. split; [apply good_same; [reflexivity | exact (fun K => K)]|]. split; [cbn; congruence|].
       intros _ Hi x. rewrite st_of_guard, st_of_guard.
       destruct (st_of t x) as [v|] eqn:Ev; [|discriminate].
       apply negb_true_iff in Ex. cbn [t_threads with_guard] in Ex.
@@ -387,8 +435,8 @@ Proof.
         - apply A1. eapply tget_in. exact Ev.
         - apply (g_nr _ _ _ _ G1). rewrite Ev. discriminate. }
       split; [|split; [cbn; congruence|]].
-      * eapply good_trans; [apply good_same with (t' := with_guard t true); reflexivity|].
-        eapply good_trans; [exact G1|]. eapply good_trans; [exact G2|]. apply good_same. reflexivity.
+      * eapply good_trans; [apply good_same with (t' := with_guard t true); [reflexivity | exact (fun K => K)]|].
+        eapply good_trans; [exact G1|]. eapply good_trans; [exact G2|]. apply good_same; [reflexivity | exact (fun K => K)].
       * intros _ _ x. rewrite st_of_guard. apply (good_allstopped _ _ _ _ G2 AS1).
 Qed.
 
@@ -567,88 +615,153 @@ Proof.
     apply drain_step; exact IH.
 Qed.
 
-(* ---- the thread table never holds a thread id twice ---------------------------------- *)
-Definition keys_ok (t : tracer) : Prop := NoDup (map fst (t_threads t)).
 
-Lemma tset_keys : forall l x v, map fst (tset l x v) = map fst l.
+(* ---- continuing the stopped threads keeps the coupling invariant ---------------------- *)
+Lemma cont_list_inv : forall l w inj ex l' w', NoDup (map fst l) -> cont_list l w inj ex = (l', w') ->
+  map fst l' = map fst l /\
+  (forall x, tget l x = Some TRunning -> tget l' x = Some TRunning) /\
+  (forall x, running w' x -> running w x \/ tget l' x = Some TRunning) /\
+  (forall x, ~ In x (map fst l) -> running w' x -> running w x).
 Proof.
-  induction l as [|[z s] l IH]; intros x v; cbn [tset map fst]; [reflexivity|].
-  destruct (x =? z); cbn [map fst]; [reflexivity | rewrite IH; reflexivity].
+  induction l as [|[x0 st] r IH]; intros w inj ex l' w' ND H; cbn [ModelTracer.cont_list] in H.
+  - inv H. repeat split; auto.
+  - cbn [map fst] in ND. inversion ND as [|? ? Hnin ND']; subst.
+    assert (KEEP : forall r' w'', cont_list r w inj ex = (r', w'') -> l' = (x0, st) :: r' -> w' = w'' ->
+       map fst l' = map fst ((x0, st) :: r) /\
+       (forall x, tget ((x0, st) :: r) x = Some TRunning -> tget l' x = Some TRunning) /\
+       (forall x, running w' x -> running w x \/ tget l' x = Some TRunning) /\
+       (forall x, ~ In x (map fst ((x0, st) :: r)) -> running w' x -> running w x)).
+    { intros r' w'' Hc -> ->. destruct (IH _ _ _ _ _ ND' Hc) as (K1 & K2 & K3 & K4).
+      split; [cbn [map fst]; congruence|]. split; [|split].
+      - intros x Hx. cbn [tget alist_get] in *. destruct (x =? x0); auto. apply K2, Hx.
+      - intros x Hr. destruct (K3 x Hr) as [|Ht]; auto. right. cbn [tget alist_get].
+        destruct (x =? x0) eqn:E; [|exact Ht]. apply N.eqb_eq in E; subst x.
+        exfalso. apply Hnin. rewrite <- K1. eapply tget_in; eauto.
+      - intros x Hn Hr. apply K4; auto. intros Hin. apply Hn. right. exact Hin. }
+    destruct (mem x0 ex).
+    + destruct (cont_list r w inj ex) as [r' w''] eqn:Hc. inv H. eapply KEEP; eauto.
+    + destruct st as [sty|].
+      * set (data := match inj with Some (p, s) => if p =? x0 then s else 0 | None => 0 end) in H.
+        destruct (w_req w (PCont x0 data)) as [ok w1] eqn:Er.
+        destruct (cont_list r w1 inj ex) as [r' w''] eqn:Hc. inv H.
+        destruct (IH _ _ _ _ _ ND' Hc) as (K1 & K2 & K3 & K4).
+        assert (RS : forall x, running w1 x -> running w x \/ (ok = true /\ x = x0)).
+        { intros x Hr. destruct (req_law _ _ _ _ Er x Hr) as [|[Hok [E _]]]; auto. cbn in E. inv E. auto. }
+        split; [cbn [map fst]; congruence|]. split; [|split].
+        -- intros x Hx. cbn [tget alist_get] in *. destruct (x =? x0); [discriminate|]. apply K2, Hx.
+        -- intros x Hr. destruct (K3 x Hr) as [Hr1|Ht].
+           ++ destruct (RS x Hr1) as [|[-> ->]]; auto. right. cbn [tget alist_get]. rewrite N.eqb_refl. reflexivity.
+           ++ right. cbn [tget alist_get]. destruct (x =? x0) eqn:E; [|exact Ht].
+              apply N.eqb_eq in E; subst x. exfalso. apply Hnin. rewrite <- K1. eapply tget_in; eauto.
+        -- intros x Hn Hr. cbn [map fst In] in Hn.
+           assert (Hr1 : running w1 x) by (apply K4; auto).
+           destruct (RS x Hr1) as [|[_ ->]]; auto. exfalso. apply Hn. left. reflexivity.
+      * destruct (cont_list r w inj ex) as [r' w''] eqn:Hc. inv H. eapply KEEP; eauto.
 Qed.
-Lemma tget_none_notin : forall l x, tget l x = None -> ~ In x (map fst l).
-Proof.
-  induction l as [|[z s] l IH]; intros x H; cbn [tget alist_get map fst In] in *; [tauto|].
-  destruct (x =? z) eqn:E; [discriminate|]. apply N.eqb_neq in E. intros [H1|H1]; [congruence | eapply IH; eauto].
-Qed.
-Lemma nodup_snoc : forall (l : list N) x, NoDup l -> ~ In x l -> NoDup (l ++ [x]).
-Proof.
-  induction l as [|a l IH]; intros x H Hn; cbn [app].
-  - constructor; [intros []|constructor].
-  - inv H. constructor.
-    + rewrite in_app_iff. intros [Hi|[Hi|[]]]; [contradiction|]. apply Hn. left. auto.
-    + apply IH; auto. intros Hin. apply Hn. right. exact Hin.
-Qed.
-Lemma nodup_filter_keys : forall (g : N * tstatus -> bool) l, NoDup (map fst l) -> NoDup (map fst (filter g l)).
-Proof.
-  induction l as [|a l IH]; intros H; cbn [filter map]; [constructor|].
-  cbn [map] in H. inv H. destruct (g a); cbn [map]; auto. constructor; auto.
-  intros Hin. apply H2. apply in_map_iff in Hin. destruct Hin as [b [Hb1 Hb2]].
-  apply filter_In in Hb2. apply in_map_iff. exists b. tauto.
-Qed.
-Lemma keys_set : forall t x v, keys_ok t -> keys_ok (t_set t x v).
-Proof. intros t x v H. unfold keys_ok, t_set; cbn [t_threads with_threads]. rewrite tset_keys. exact H. Qed.
-Lemma keys_add : forall t x, keys_ok t -> keys_ok (t_add t x).
-Proof.
-  intros t x H. unfold keys_ok, t_add, tadd; cbn [t_threads with_threads].
-  destruct (tget (t_threads t) x) eqn:E.
-  - rewrite tset_keys. exact H.
-  - rewrite map_app. cbn [map fst]. apply nodup_snoc; auto. apply tget_none_notin; exact E.
-Qed.
-Lemma keys_remove : forall t x, keys_ok t -> keys_ok (t_remove t x).
-Proof. intros t x H. unfold keys_ok, t_remove, tremove; cbn [t_threads with_threads]. apply nodup_filter_keys. exact H. Qed.
-Lemma keys_ensure : forall t x st t', ensure_stop t x st = Ok t' -> keys_ok t -> keys_ok t'.
-Proof. intros t x st t' H K. unfold ensure_stop in H. destruct (tget (t_threads t) x); inv H. apply keys_set; exact K. Qed.
-Lemma keys_queue : forall t q, keys_ok t -> keys_ok (with_queue t q).
-Proof. intros t q H. exact H. Qed.
-Lemma keys_guard : forall t g, keys_ok t -> keys_ok (with_guard t g).
-Proof. intros t g H. exact H. Qed.
 
-Definition K_ans f := forall bps t w s t' w' r, keys_ok t -> ans f bps t w s = Ok (t', w', r) -> keys_ok t'.
-Definition K_gsi f := forall bps t w i t' w', keys_ok t -> gsi f bps t w i = Ok (t', w') -> keys_ok t'.
-Definition K_round f := forall bps t w tids t' w', keys_ok t -> gsi_round f bps t w tids = Ok (t', w') -> keys_ok t'.
-Definition K_while f := forall bps t w x wait t' w', keys_ok t -> gsi_while f bps t w x wait = Ok (t', w') -> keys_ok t'.
-Definition K_sstep f := forall bps t w pid t' w' r, keys_ok t -> sstep f bps t w pid = Ok (t', w', r) -> keys_ok t'.
-Definition K_loop f := forall bps t w pid pc0 t' w' r, keys_ok t -> sstep_loop f bps t w pid pc0 = Ok (t', w', r) -> keys_ok t'.
-Definition K_drain f := forall bps t w pid t' w', keys_ok t -> sstep_drain f bps t w pid = Ok (t', w') -> keys_ok t'.
-Definition K_all f := K_ans f /\ K_gsi f /\ K_round f /\ K_while f /\ K_sstep f /\ K_loop f /\ K_drain f.
-
-Ltac crush H :=
-  repeat (first
-    [ match type of H with
-      | bind ?r _ = Ok _ => let q := fresh "q" in let E := fresh "E" in
-                            destruct r as [q|?|?|] eqn:E; cbn [bind] in H; [|discriminate H|discriminate H|discriminate H]
-      end
-    | match type of H with
-      | context [let '(_, _) := ?p in _] => destruct p eqn:?
-      end
-    | match type of H with
-      | context [match ?x with _ => _ end] => destruct x eqn:?
-      end ]; try discriminate H).
-
-Local Hint Resolve keys_set keys_add keys_remove keys_ensure keys_queue keys_guard : keys.
-
-Theorem keys_all : forall f, K_all f.
+Lemma cont_inv : forall t w inj ex t' w', Inv t w -> keys_ok t -> cont_stopped_ex t w inj ex = (t', w') ->
+  Inv t' w' /\ keys_ok t' /\ t_guard t' = t_guard t /\ t_queue t' = t_queue t.
 Proof.
-  induction f as [|f (IHans & IHgsi & IHround & IHwhile & IHsstep & IHloop & IHdrain)].
-  - unfold K_all, K_ans, K_gsi, K_round, K_while, K_sstep, K_loop, K_drain.
-    split; [|split; [|split; [|split; [|split; [|split]]]]]; intros; discriminate.
-  - unfold K_ans, K_gsi, K_round, K_while, K_sstep, K_loop, K_drain in *.
-    split; [|split; [|split; [|split; [|split; [|split]]]]].
-    + intros bps t w s t' w' r K H. cbn [ModelTracer.ans] in H. crush H; inv H; eauto 8 with keys.
-    + intros bps t w i t' w' K H. cbn [ModelTracer.gsi] in H. crush H; inv H; eauto 8 with keys.
-    + intros bps t w tids t' w' K H. cbn [ModelTracer.gsi_round] in H. crush H; try (inv H; eauto 8 with keys; fail); eauto 8 with keys.
-    + intros bps t w x wait t' w' K H. cbn [ModelTracer.gsi_while] in H. crush H; try (inv H; eauto 8 with keys; fail); eauto 8 with keys.
-    + intros bps t w pid t' w' r K H. cbn [ModelTracer.sstep] in H. crush H; eauto 8 with keys.
-    + intros bps t w pid pc0 t' w' r K H. cbn [ModelTracer.sstep_loop] in H. crush H; try (inv H; eauto 8 with keys; fail); eauto 8 with keys.
-    + intros bps t w pid t' w' K H. cbn [ModelTracer.sstep_drain] in H. crush H; try (inv H; eauto 8 with keys; fail); eauto 8 with keys.
+  intros t w inj ex t' w' I K H. unfold ModelTracer.cont_stopped_ex in H.
+  destruct (cont_list (t_threads t) w inj ex) as [l' w''] eqn:Hc. inv H.
+  destruct (cont_list_inv _ _ _ _ _ _ K Hc) as (K1 & K2 & K3 & K4).
+  split; [|split; [|split; reflexivity]].
+  - intros x Hr. unfold st_of; cbn [t_threads with_threads]. destruct (K3 x Hr) as [Hr0|]; auto. apply K2, I, Hr0.
+  - unfold keys_ok; cbn [t_threads with_threads]. rewrite K1. exact K.
 Qed.
+
+Definition tinv (t : tracer) (w : W) : Prop := Inv t w /\ keys_ok t /\ t_guard t = false.
+
+Lemma ans_top : forall f bps t w s t' w' r, tinv t w ->
+  ~ running w (ws_tid s) -> (forall p, s = WEvent p EvExit -> exitstop w p) ->
+  ans f bps t w s = Ok (t', w', r) -> tinv t' w' /\ (real_stop r = true -> allstopped t').
+Proof.
+  intros f bps t w s t' w' r (I & K & G) Hn Hx H.
+  destruct (all_steps f) as (Pa & _). destruct (Pa _ _ _ _ _ _ _ Hn Hx H) as (Gd & Gg & A).
+  split; [split; [eapply good_inv; eauto | split; [apply (g_keys _ _ _ _ Gd K) | congruence]] | auto].
+Qed.
+
+Lemma gsi_top : forall f bps t w t' w', tinv t w -> gsi f bps t w None = Ok (t', w') -> tinv t' w' /\ allstopped t'.
+Proof.
+  intros f bps t w t' w' (I & K & G) H.
+  destruct (all_steps f) as (_ & Pg & _). destruct (Pg _ _ _ _ _ _ H) as (Gd & Gg & A).
+  split; [split; [eapply good_inv; eauto | split; [apply (g_keys _ _ _ _ Gd K) | congruence]]|].
+  apply A; auto. intros x Hx; discriminate.
+Qed.
+
+(* C09, tracer against any lawful world: Tracer::resume keeps the coupling invariant, and when it
+   reports a breakpoint, a watchpoint or a (non-quiet) signal, no thread is running *)
+Theorem resume_all_stop : forall f bps t w t' w' sr, tinv t w ->
+  resume f bps t w = Ok (t', w', sr) ->
+  tinv t' w' /\ (real_stop (Some sr) = true -> allstopped t' /\ forall x, ~ running w' x).
+Proof.
+  induction f as [|f IH]; intros bps t w t' w' sr TI H; [discriminate|].
+  cbn [ModelTracer.resume] in H.
+  assert (FIN : forall t9 w9, tinv t9 w9 -> (real_stop (Some sr) = true -> allstopped t9) ->
+            tinv t9 w9 /\ (real_stop (Some sr) = true -> allstopped t9 /\ forall x, ~ running w9 x)).
+  { intros t9 w9 T9 A9. split; auto. intros Hs. split; auto. intros x Hr.
+    destruct T9 as (I9 & _). apply (A9 Hs x). apply I9, Hr. }
+  assert (WP : forall t1 w1, tinv t1 w1 ->
+    match w_wait w1 None with
+    | Err 10 => Ok (t1, w1, SRNoSuchProcess (t_proc t1))
+    | Err e => Err e
+    | Panic s => Panic s
+    | OutOfFuel => OutOfFuel
+    | Ok (status, w2) =>
+        r <- ans f bps t1 w2 status ;;
+        let '(t2, w3, stop) := r in
+        match stop with
+        | None => resume f bps t2 w3
+        | Some (SRSignal p sg) => if quiet sg then resume f bps t2 w3 else Ok (t2, w3, SRSignal p sg)
+        | Some sr => Ok (t2, w3, sr)
+        end
+    end = Ok (t', w', sr) ->
+    tinv t' w' /\ (real_stop (Some sr) = true -> allstopped t' /\ forall x, ~ running w' x)).
+  { intros t1 w1 T1 Hw. destruct (w_wait w1 None) as [[status w2]|e| |] eqn:Ew; try discriminate.
+    - destruct (wait_law _ _ _ _ Ew) as (M1 & N1 & _ & X1).
+      assert (T2 : tinv t1 w2).
+      { destruct T1 as (I1 & K1 & G1). split; auto. intros x Hr. apply I1, M1, Hr. }
+      bindN Hw q Ea. destruct q as [[t2 w3] stop].
+      destruct (ans_top _ _ _ _ _ _ _ _ T2 N1 X1 Ea) as (T3 & A3).
+      destruct stop as [[c| |p a|p a|p sg|p]|].
+      + inv Hw. apply FIN; auto.
+      + inv Hw. apply FIN; auto.
+      + inv Hw. apply FIN; auto.
+      + inv Hw. apply FIN; auto.
+      + destruct (quiet sg) eqn:Eq.
+        * eapply IH; eauto.
+        * inv Hw. apply FIN; auto.
+      + inv Hw. apply FIN; auto.
+      + eapply IH; eauto.
+    - destruct e as [|e]; [discriminate|].
+      repeat (destruct e as [e|e|]; try discriminate).
+      inv Hw. apply FIN; auto. intros Hs; discriminate. }
+  destruct TI as (I & K & G).
+  destruct (t_queue t) as [|[x sg] rest] eqn:Eq.
+  - destruct (cont_stopped_ex t w None []) as [t1 w1] eqn:Ec.
+    destruct (cont_inv _ _ _ _ _ _ I K Ec) as (I1 & K1 & G1 & _).
+    apply (WP t1 w1); [split; [auto | split; [auto | congruence]] | exact H].
+  - destruct (cont_stopped_ex (with_queue t rest) w (Some (x, sg)) (map fst rest)) as [t1 w1] eqn:Ec.
+    destruct (cont_inv _ _ _ _ _ _ (I : Inv (with_queue t rest) w) (K : keys_ok (with_queue t rest)) Ec) as (I1 & K1 & G1 & _).
+    assert (T1 : tinv t1 w1) by (split; [auto | split; [auto | cbn in G1; congruence]]).
+    destruct rest as [|[y s2] rest'].
+    + apply (WP t1 w1 T1 H).
+    + bindN H q Eg. destruct q as [t2 w2]. inv H.
+      destruct (gsi_top _ _ _ _ _ _ T1 Eg) as (T2 & A2). apply FIN; auto.
+Qed.
+
+(* Tracer::single_step of a thread the tracer holds stopped keeps the invariant and starts nobody *)
+Theorem sstep_keeps : forall f bps t w pid t' w' r, tinv t w -> is_stopped (st_of t pid) = true ->
+  sstep f bps t w pid = Ok (t', w', r) ->
+  tinv t' w' /\ (allstopped t -> allstopped t' /\ forall x, ~ running w' x).
+Proof.
+  intros f bps t w pid t' w' r (I & K & G) Hs H.
+  assert (Hn : ~ running w pid).
+  { intros Hr. rewrite (I pid Hr) in Hs. discriminate. }
+  destruct (all_steps f) as (_ & _ & _ & _ & Ps & _). destruct (Ps _ _ _ _ _ _ _ Hn H) as (Gd & Gg).
+  assert (I' : Inv t' w') by (eapply good_inv; eauto).
+  split; [split; [auto | split; [apply (g_keys _ _ _ _ Gd K) | congruence]]|].
+  intros A. assert (A' : allstopped t') by (eapply good_allstopped; eauto).
+  split; auto. intros x Hr. apply (A' x), I', Hr.
+Qed.
+End LAWS.
